@@ -1,7 +1,7 @@
 (* C05: non-vacuity — concrete, non-trivial instances meeting the hypotheses of each theorem. *)
 From Coq Require Import List NArith ZArith Bool Arith Lia.
 Import ListNotations.
-Require Import Verif.Model.C05_Types Verif.Gen.C05_CacheLayout Verif.Model.C05_Codec Verif.Model.C05_FS.
+Require Import Verif.Model.C05_Types Verif.Model.C05_Codec Verif.Model.C05_FS.
 Require Import Verif.Proofs.C05_Codec Verif.Proofs.C05_FSLemmas Verif.Proofs.C05_FS Verif.Proofs.C05.
 Open Scope N_scope.
 
